@@ -13,7 +13,6 @@ import (
 )
 
 func flushMemstoreContinuously(db *DB) {
-	defer func() { db.doneFlushChannel <- true }()
 	err := func(db *DB) error {
 		for flushAction := range db.storeFlushChannel {
 			err := executeFlush(db, flushAction)
@@ -25,8 +24,12 @@ func flushMemstoreContinuously(db *DB) {
 	}(db)
 
 	if err != nil {
+		// this must stop the process right away: behind a deferred send on the done channel the panic would be parked
+		// until Close(), while the next rotation blocks forever on the flush channel that nobody reads anymore
 		log.Panicf("error while merging sstable at %s, error was %v", db.currentSSTablePath, err)
 	}
+
+	db.doneFlushChannel <- true
 }
 
 func executeFlush(db *DB, flushAction memStoreFlushAction) error {
